@@ -208,11 +208,23 @@ pub fn run(prop: &str, tier: &str, replay: Option<&str>) -> i32 {
                 // (equal pre-specified identifiers on both sides would make it look self-signed by construction)
                 let same_pre = matches!((&kids[c.1], &kids[c.2]), (KeyIdSpec::Pre(a), KeyIdSpec::Pre(b)) if a == b);
                 let leaf3 = if ca_st.dn.0.is_empty() || same_pre { None } else { Some(to_params(&same).unwrap().signed_by(&leaf_kp, &ca, &ca_kp)?.der().to_vec()) };
-                Ok::<_, rcgen::Error>((ca.der().to_vec(), leaf.der().to_vec(), leaf2, leaf3))
+                // one KEY in two roles: a certificate for the issuer's own key under another name and with the SUBJECT's
+                // key-identifier method (a renewal / cross-certificate without re-keying): its AKI is still the identifier
+                // the issuer certificate carries, whatever the subject's own identifier is
+                let mut own = leaf_state(&kids[c.2]);
+                own.dn = DnSpec::cn("the issuer's key under another name");
+                let leaf5 = to_params(&own).unwrap().signed_by(&ca_kp, &ca, &ca_kp)?.der().to_vec();
+                Ok::<_, rcgen::Error>((ca.der().to_vec(), leaf.der().to_vec(), leaf2, leaf3, leaf5))
             });
             out.transitions = 46;
             match r {
-                Ok(Ok((ca_der, leaf_der, leaf2_der, leaf3_der))) => {
+                Ok(Ok((ca_der, leaf_der, leaf2_der, leaf3_der, leaf5_der))) => {
+                    let mut f5 = Vec::new();
+                    judge_chain(&leaf5_der, &ca_der, true, true, false, &mut f5);
+                    out.findings.extend(f5.into_iter().map(|mut f| {
+                        f.locus = format!("{} (certificate for the issuer's own key)", f.locus);
+                        f
+                    }));
                     out.digest = fnv(&decode_cert(&leaf_der).value.map(|v| v.tbs_raw).unwrap_or_default());
                     if let Some(l3) = &leaf3_der {
                         // ... and that certificate (self-issued, not self-signed; it carries the PARENT's key identifier as
@@ -397,12 +409,24 @@ pub fn run(prop: &str, tier: &str, replay: Option<&str>) -> i32 {
                 cases.push((i, l));
             }
         }
+        // identifiers that ARE a digest of something an importer might recompute: SHA-1 / SHA-256 / SHA-384 / SHA-512 of the key
+        // bits (what other software writes), cut to 20 octets and whole; coded as 1000 + digest bits (+ 5000 when whole)
+        for i in 0..names.len().min(4) {
+            for code in [1001usize, 1256, 1384, 1512, 6256, 6384, 6512] {
+                cases.push((i, code));
+            }
+        }
         let signer = ossl_signer(ca_z.pkey.clone(), Alg::Ed25519);
-        let sec = Section::new("imported-issuers/reference-built CA", "foreign CA certificates built with the reference DER writer for every name (<= 2, thorough 3 RDNs over 36 atoms incl. repeated types; multi-valued RDNs; empty), without SKI and with SKIs of 20 and 32 bytes (first names: 1..128 bytes), signed by a fixture key; imported (DER and PEM), re-issued, leaf judged against the ORIGINAL CA bytes").with_deadline(cap);
+        let sec = Section::new("imported-issuers/reference-built CA", "foreign CA certificates built with the reference DER writer for every name (<= 2, thorough 3 RDNs over 36 atoms incl. repeated types; multi-valued RDNs; empty), without SKI and with SKIs of 20 and 32 bytes (first names: 1..128 bytes, and SKIs that are SHA-1 / SHA-2 digests of the key bits), signed by a fixture key; imported (DER and PEM), re-issued, leaf judged against the ORIGINAL CA bytes").with_deadline(cap);
         run::sweep_cases(&sec, &cases, &|c| format!("CA subject [{}] ski={}", names[c.0].label(), c.1), &|c| {
             let mut out = Outcome::default();
             let name = &names[c.0];
-            let ski: Vec<u8> = ossl_sha(512, &ca_z.spki).iter().cycle().take(c.1).cloned().collect();
+            let ski: Vec<u8> = match c.1 {
+                1001 => openssl::hash::hash(openssl::hash::MessageDigest::sha1(), &ca_z.raw_pub).unwrap().to_vec(),
+                1256 | 1384 | 1512 => ossl_sha((c.1 - 1000) as u32, &ca_z.raw_pub)[..20].to_vec(),
+                6256 | 6384 | 6512 => ossl_sha((c.1 - 6000) as u32, &ca_z.raw_pub),
+                n => ossl_sha(512, &ca_z.spki).iter().cycle().take(n).cloned().collect(),
+            };
             let mut exts = vec![RefExt::new(OID_BC, true, ext_bc(true, None, false)), RefExt::new(OID_KU, true, ext_ku(ku_bits(&[5, 6]), None))];
             if c.1 > 0 {
                 exts.push(RefExt::new(OID_SKI, false, ext_ski(&ski)));
